@@ -337,18 +337,22 @@ def correspond(ctx):
       ctx.bump('skipped:unencodable')
       continue
     try:
-      g[1].append('(%s, %s, %s, %s)' % (core.boollit(formulas), core.boollit(private), enc_query(query),
+      g[1].append('(mk_q %s %s %s %s)' % (core.boollit(formulas), core.boollit(private), enc_query(query),
                                         enc_result(res)))
       g[2].append(w)
     except Unencodable:
       ctx.bump('skipped:unencodable')
   gs = [g for g in groups.values() if g[0] is not None and g[1]]
-  coq = ['(%s, %s)' % (g[0], core.coq_list(g[1])) for g in gs]
+  coq = ['(mk_group %s %s)' % (g[0], core.coq_list(g[1])) for g in gs]
   ctx.log('cases: %d on %d tables' % (sum(len(g[1]) for g in gs), len(gs)))
   # one Coq case = one table with all its queries; a failing query makes its whole group fail
   bad = ctx.run_cases('fetch', ['Grist.Lib.PyVal', 'Grist.Model.FetchQuery'],
                       "fun c => forallb (fun x => let '(f, p, q, e) := x in result_eqb (fetch (fst c) f p q) e) (snd c)",
-                      coq, shard=12)
+                      coq, shard=12,
+                      # typed constructors, so empty queries / row lists / column lists never leave a type open
+                      extra_defs='Definition mk_q (f p : bool) (q : query) (e : result table_data) := (f, p, q, e).\n'
+                                 'Definition mk_group (t : table) (l : list (bool * bool * query * result table_data)) '
+                                 ':= (t, l).')
   for i in bad[:3]:
     ctx.broken('correspondence:model fetch differs from engine.fetch_table',
                'one of the queries %r on the table of %r' % ([(w['formulas'], w['private'], w['query']) for w in gs[i][2]],
